@@ -32,6 +32,10 @@ func runC05(c *an.Ctx) {
 	r05i(c)
 	r05j(c)
 	r05k(c)
+	// round 8
+	r05l(c)
+	r05m(c)
+	c.As(map[string]string{"R13f": "R05n"}, func() { r13f(c) })
 }
 
 // R05a: verdict finality in constraint.Attributes.Satisfy.
